@@ -64,7 +64,11 @@ pub fn scenario(ctx: &mut Ctx) -> ScResult {
     }
     let w = faults::weights(if profile == "bigbuf" { "faults" } else { &profile });
     let cl = [creds.clone(), other.clone()];
-    let opts = PipeOpts { oracle: ctx.cfg.prop != "C01", creds: &cl, sweep: if big > 0 { 24 } else { 48 } };
+    // one run in four: the receiver parses the whole batch before it inspects any message of it
+    let batch_mode = big == 0 && msgs.len() > 1 && ctx.ch.rare(1, 4);
+    let no_interleave: Vec<Vec<u8>> = vec![];
+    let all_msgs = msgs.clone();
+    let opts = PipeOpts { oracle: ctx.cfg.prop != "C01", creds: &cl, sweep: if big > 0 { 24 } else { 48 }, interleave: if batch_mode { &all_msgs } else { &no_interleave } };
     let mut any_fault = false;
     for i in 0..msgs.len() {
         let mut buf = msgs[i].clone();
